@@ -57,8 +57,35 @@ def bucket_rel(key: bytes) -> str:
     return f"index-v5/{h[0:2]}/{h[2:4]}/{h[4:]}"
 
 
+def render_float(x: float) -> str:
+    """serde_json's float text: shortest round-trip digits, plain notation for decimal exponents
+    -5 < kk <= 16, otherwise `d[.ddd]e+x` / `e-x` (the same rules as `Json.renderDec` in the Lean model)."""
+    import decimal
+    if x == 0:
+        return "-0.0" if str(x).startswith("-") else "0.0"
+    sign, digits, k = decimal.Decimal(repr(x)).as_tuple()
+    digits = list(digits)
+    while len(digits) > 1 and digits[-1] == 0:
+        digits.pop(); k += 1
+    ds = "".join(map(str, digits))
+    n = len(ds); kk = n + k
+    if 0 <= k and kk <= 16:
+        body = ds + "0" * k + ".0"
+    elif 0 < kk <= 16:
+        body = ds[:kk] + "." + ds[kk:]
+    elif -5 < kk <= 0:
+        body = "0." + "0" * (-kk) + ds
+    else:
+        ex = kk - 1
+        es = ("e+" if ex >= 0 else "e-") + str(abs(ex))      # the float writer serde_json uses prints `e+28` / `e-7`
+        body = (ds if n == 1 else ds[0] + "." + ds[1:]) + es
+    return ("-" if sign else "") + body
+
+
 def render_json(v) -> str:
-    """serde_json::to_string for values without floats (objects sorted by key *bytes*)."""
+    """serde_json::to_string (objects sorted by key *bytes*, floats as ryu prints them)."""
+    if isinstance(v, float):
+        return render_float(v)
     if isinstance(v, dict):
         items = sorted(v.items(), key=lambda kv: kv[0].encode())
         return "{" + ",".join(json.dumps(k, ensure_ascii=False) + ":" + render_json(x) for k, x in items) + "}"
